@@ -474,6 +474,20 @@ def probe_cases(rng, tier):
         c = copy.deepcopy(sl[k])
         c['_near_planes'] = True
         lab.append((k + '-near-planes', c))
+    # the step is limited by a tight un-rodded region that is followed by
+    # a much looser one (the assembly's requirement is the minimum over its
+    # regions, wherever the limiting one sits)
+    tb = scenarios.bundle_type(2)
+    tb['AxialRegion'] = {
+        'plenum': dict(model='simple', vf_coolant=0.3, z_lo=0.3, z_hi=0.45,
+                       hydraulic_diameter=0.0001),
+        'handling': dict(model='simple', vf_coolant=0.6, z_lo=0.45,
+                         z_hi=0.6)}
+    tb['_rods'] = [0.0, 0.3]
+    lab.append(('tight-region-below-open-one', scenarios.make_core(
+        rng, {'a1': tb}, [(1, 1, 'a1')], [scenarios.flow_for(tb)],
+        gap_model='flow', bypass_fraction=0.05, ncell=2,
+        cell_bounds=[0.0, 0.3, 0.6])))
     # temperature-dependent coolant
     c = copy.deepcopy(sl['rod3-flowgap'])
     c['coolant'] = 'sodium'
